@@ -87,6 +87,8 @@ def main():
         shutil.copy(diff, os.path.join(dest, "patch.diff"))
         shutil.copy(demo, os.path.join(dest, "demo.py"))
         notes = os.path.join(wt, "notes.md" if m in "AB" else "notes2.md" if m in "CD" else "notes3.md" if m in "EF" else "notes4.md")
+        if os.path.exists(os.path.join(wt, "notes%s.md" % m)):
+            notes = os.path.join(wt, "notes%s.md" % m)
         if os.path.exists(notes):
             shutil.copy(notes, os.path.join(dest, "notes.md"))
         meta = {
